@@ -18,7 +18,7 @@ every stage); one that changes it (seeded C19-f: a guard-clause rewrite of `_tap
 returned early) breaks them.
 -/
 import PrimaiteModel.Gen.AgentsCtl
-import PrimaiteModel.Props.C19NoRaise
+import PrimaiteModel.Props.C19Wf
 namespace Primaite.Agents
 open Primaite.Gen.AgentsCtl (Ctl)
 
@@ -126,4 +126,32 @@ theorem C19_gen_ctl_tap1_trial (c : Cfg) (s : St) (he : s.err = false) (rkc : Bo
     simp [Agree, failStage, Gen.AgentsCtl.agentTrialHandler, enc, Stage.val, hr, he]
 
 end Tap1
+
+/-! ## The responses TAP003 reads (`SimOk`, Props/C19Wf.lean) against the sites that build them -/
+
+/-- The keys `_handle_login_response` reads from a login response. -/
+def loginKeysRead : List String :=
+  (Gen.AgentsCtl.tap3DataReads.filter (·.1 == "_handle_login_response")).map (·.2)
+
+/-- **`SimOk` holds of the construction sites.**
+(1) the simulation answers the `do-nothing` request with `success`;
+(2) EVERY `RequestResponse` that `Terminal._remote_login` builds with status `success` carries every key
+    `_handle_login_response` reads (the comparison is by key sets: a further key, another order, a further failure
+    site keep it);
+(3) TAP003 reads `response.data` nowhere else than in `_handle_login_response` (behind the guards "action is
+    node-session-remote-login and status is success") and, for `reason`, in `get_action` inside
+    `if current stage == PLANNING` — the two raise points `Tap3.handleLogin` and `Tap3.reasonCheck` of the model.
+Assumed, not proved: that the response recorded for an action in `agent.history` is the one these handlers return (request
+routing through the RequestManager tree and the permission validators in front of them, which answer `failure` /
+`unreachable`, never `success`), and that a do-nothing ACTION is formed into the `do-nothing` request. -/
+theorem C19_gen_resp_wf_sites :
+    Gen.AgentsCtl.doNothingStatus = "success" ∧
+    (Gen.AgentsCtl.remoteLoginSites.any (·.1 == "success")) = true ∧
+    (Gen.AgentsCtl.remoteLoginSites.all fun st => st.1 != "success" || loginKeysRead.all (st.2.contains ·)) = true ∧
+    (Gen.AgentsCtl.tap3DataReads.all fun r => r.1 == "_handle_login_response" || (r.1 == "get_action" && r.2 == "reason")) = true ∧
+    Gen.AgentsCtl.tap3ReasonGuard = "self.current_kill_chain_stage == InsiderKillChain.PLANNING" ∧
+    Gen.AgentsCtl.tap3LoginGuards = ["not self.history",
+      "not last_hist_item.action == 'node-session-remote-login' or last_hist_item.response.status != 'success'"] := by
+  decide
+
 end Primaite.Agents
